@@ -168,7 +168,15 @@ func checkC16(c *Case, st *Stats) string {
 				probe{"multi-first", "$[" + inner + ",'zz9-absent']", obj, []interface{}{want}},
 				probe{"multi-second", "$['zz9-absent'," + inner + "]", obj, []interface{}{want}})
 		}
+		// a path that starts with the filter itself ('$' omitted), right after a Parse that was rejected
+		// inside a filter operand with selectors in front of the filter: what that parse had built
+		// must not be prepended to, or otherwise leak into, the next path
+		probes = append(probes, probe{"no-dollar-filter-first-after-a-rejected-parse", "[?(@" + sp.sel + " == " + eqLit + ")]", list, []interface{}{obj}})
 		for _, p := range probes {
+			if p.pos == "no-dollar-filter-first-after-a-rejected-parse" {
+				poison := poisonPaths[(len(key)*7+len(sp.sel))%len(poisonPaths)]
+				_, _ = jsonpath.Parse(poison, BuildConfig(nil, true, false))
+			}
 			got, rerr, perr := retrieveText(p.path, p.doc, st)
 			if perr != nil {
 				return fmt.Sprintf("key %q, spelling %s, position %s: %q was rejected by Parse: %v", key, sp.name, p.pos, p.path, perr)
